@@ -265,8 +265,12 @@ SPEC = dict(
     rtol=0.0, atol=0.0,
     rule="case 0 = the F4 history; then 83 directed histories (realize(Acceleration) -> exactly one public State-level setter / "
          "enable / disable -> realize(Acceleration), one per force type and setter, keys <Force>.<setter>.param_after_realize.history, "
-         "zdot under ....zdot.history; incl. Force::Gravity exclusion changes at zero magnitude); then n random cases from "
-         "VERIF_SEED, two in three plain (1-3 Pin/Slider bodies, 1-2 elements of a subject force type with state parameters + "
+         "zdot under ....zdot.history; incl. Force::Gravity exclusion changes at zero magnitude); then the matter-subsystem history "
+         "differential: 19 mobilizer types (full palette incl. FunctionBased with q-dependent H, coupled functions, a Custom mobilizer) "
+         "x forward/reversed x 8 order classes (P_q_P, P_q_P_V, V_u_V, V_q_V, A_q_P_A, P_q_A, A_u_A, random) on one reused State, "
+         "digest of everything readable at the final stage compared bit for bit with a fresh State (keys "
+         "matter.history.<Type>.<order>.bits_equal, floor matter.history.coverage_floor); then n random cases from "
+         "VERIF_SEED, one in six a random palette tree with a random matter history, about half plain (1-3 Pin/Slider bodies, 1-2 elements of a subject force type with state parameters + "
          "background elements + Custom probes (position, velocity, position+time, own state parameter) + optional Force::Gravity; "
          "8-25 operations), one in three rich (Pin/Slider/Ball/Free bodies, 1-2 constraints, locks, Euler/quaternion option, event "
          "witness; 10-27 operations incl. lock/lockAt/unlock, constraint enable/disable, setUseEulerAngles, explicit requests and "
@@ -279,7 +283,8 @@ SPEC = dict(
             "protocol) given the table obligations; validity => currency of the matter subsystem's five lazy entries "
             "(lazy_entries_depend_on_position_version) given matter_table_ok. (ii) predicate-only (P lines on the real API): that "
             "each calcForce reads only what its class declares, elements with lazy caches of their own (LinearBushing, CableSpring: "
-            "only the table clause LazyRowOK is proved), udot/PE/KE/kinematics, multipliers, constraint errors, constraint enable "
+            "only the table clause LazyRowOK is proved), udot/PE/KE/kinematics, the kinematics and dynamics operators of every mobilizer type on a reused State (bitwise "
+            "matter.history keys), multipliers, constraint errors, constraint enable "
             "flags, locks, Euler/quaternion option, one q,u,t event witness, composite/articulated inertias (the model sees locks / "
             "constraint flags / the Euler option only as 'an Instance- / Model-stage variable changed'). (iii) not covered: contact "
             "elements (HuntCrossley, ElasticFoundation, SmoothSphereHalfSpace are table rows only), witnesses of library event "
